@@ -170,6 +170,10 @@ Proof.
   - left. lia.
   - right. split; [split; congruence|split; [lia|eapply view_le_trans; eassumption]].
 Qed.
+Lemma vqs_vq a b : vqs a b -> vq a b.
+Proof. intros [A B]. split; [lia|exact B]. Qed.
+Lemma vq_vqs_trans a b c : vq a b -> vqs b c -> vqs a c.
+Proof. intros [A1 A2] [B1 B2]. split; [lia|eapply view_le_trans; eassumption]. Qed.
 Lemma vlt_trans a b c : vlt a b -> vlt b c -> vlt a c.
 Proof.
   intros H1 H2. eapply vlt_vle_trans; [exact H1|].
@@ -222,7 +226,7 @@ Definition ev_ok (e : mev) : Prop :=
 
 Definition ev_M (t : vs3) (e : mev) : Prop :=
   match e with
-  | EvMark vid m => (forall a, vle a (get3 t vid) -> vle a m) /\ (forall a, past a t -> samepos a m -> vq a m)
+  | EvMark vid m => (forall a, vle a (get3 t vid) -> vle a m) /\ (forall a, past a t -> samepos a m -> vqs a m)
   | EvJump m => forall a, past a t -> samepos a m -> vq a m
   | _ => True
   end.
@@ -230,15 +234,15 @@ Definition ev_M (t : vs3) (e : mev) : Prop :=
 Definition ev_N (t' : vs3) (e : mev) : Prop :=
   match e with
   | EvMark vid m => vle m (get3 t' vid) /\ past m t'
-  | EvJump m => past m t'
+  | EvJump m => past m t' /\ v_r m < two32
   | _ => True
   end.
 
 Definition ev_rel (e1 e2 : mev) : Prop :=
   match e1, e2 with
-  | EvMark vid1 m1, EvMark vid2 m2 => (slot vid1 = slot vid2 -> vle m1 m2) /\ (samepos m1 m2 -> vq m1 m2)
+  | EvMark vid1 m1, EvMark vid2 m2 => (slot vid1 = slot vid2 -> vle m1 m2) /\ (samepos m1 m2 -> vqs m1 m2)
   | EvMark _ m1, EvJump m2 => samepos m1 m2 -> vq m1 m2
-  | EvJump m1, EvMark _ m2 => samepos m1 m2 -> vq m1 m2
+  | EvJump m1, EvMark _ m2 => samepos m1 m2 -> vqs m1 m2
   | EvJump m1, EvJump m2 => samepos m1 m2 -> vq m1 m2
   | _, _ => True
   end.
@@ -295,7 +299,7 @@ Lemma ev_N_mono t1 t2 e :
 Proof.
   intros H1 H2. destruct e as [vid m|m|m|h]; cbn [ev_N]; try (intros; exact I).
   - intros [A B]. split; [apply H1, A|apply H2, B].
-  - apply H2.
+  - intros [A B]. split; [apply H2, A|exact B].
 Qed.
 
 Lemma ev_N_M_rel t e1 e2 : ev_N t e1 -> ev_M t e2 -> ev_rel e1 e2.
@@ -305,8 +309,8 @@ Proof.
     + intros Hs. apply C. rewrite <- (get3_slot t _ _ Hs). exact A.
     + apply D. exact B.
   - intros [A B] D. apply D. exact B.
-  - intros B [C D]. apply D. exact B.
-  - intros B D. apply D. exact B.
+  - intros [B _] [C D]. apply D. exact B.
+  - intros [B _] D. apply D. exact B.
 Qed.
 
 Lemma TR3_trans t t1 t2 n1 n2 : TR3 t t1 n1 -> TR3 t1 t2 n2 -> TR3 t t2 (n1 ++ n2).
@@ -384,7 +388,8 @@ Lemma upd_facts t vid w :
   (forall a, past a t -> past a (put3 t vid w)) /\
   (forall a, vle a (get3 t vid) -> vle a w) /\
   (forall a, past a t -> samepos a w -> vq a w) /\
-  vle w (get3 (put3 t vid w) vid) /\ past w (put3 t vid w).
+  vle w (get3 (put3 t vid w) vid) /\ past w (put3 t vid w) /\
+  (forall a, past a t -> samepos a w -> vq a (get3 t vid)).
 Proof.
   destruct t as [[c v] n]. unfold get3, put3. intros Hk Hp Q Hw.
   assert (L : vle (if vid =? ViewIDVoting then v else if vid =? ViewIDCommitting then c else n) w)
@@ -399,8 +404,9 @@ Proof.
     { intros a (A1&A2&A3&A4) Hs. eapply vq_trans; [apply A3; unfold samepos in *; split; lia|exact Q]. }
     split; [|split; [intros a Ha; eapply vle_trans; [exact Ha|exact L]|split; [exact P|split; [apply vle_refl|]]]].
     + intros a Ha. pose proof (P a Ha) as Pa. destruct Ha as (A1&A2&A3&A4). unfold past. split; [exact A1|]. split; [exact A2|]. split; [exact Pa|exact A4].
-    + unfold past. split; [left; unfold pos_lt; lia|].
-      split; [intros [X _]; exfalso; lia|]. split; [intros _; apply vq_refl|intros [_ X]; exfalso; lia].
+    + split; [unfold past; split; [left; unfold pos_lt; lia|];
+      split; [intros [X _]; exfalso; lia|]; split; [intros _; apply vq_refl|intros [_ X]; exfalso; lia]|].
+      intros a (A1&A2&A3&A4) Hs. apply A3; unfold samepos in *; split; lia.
   - destruct Hp as [Hp1 Hp2].
     split; [unfold kinv; repeat split; lia|].
     split; [intros a vid'; unfold get3; destruct (vid' =? ViewIDVoting); [auto|]; destruct (vid' =? ViewIDCommitting); [|auto];
@@ -409,8 +415,9 @@ Proof.
     { intros a (A1&A2&A3&A4) Hs. eapply vq_trans; [apply A2; unfold samepos in *; split; lia|exact Q]. }
     split; [|split; [intros a Ha; eapply vle_trans; [exact Ha|exact L]|split; [exact P|split; [apply vle_refl|]]]].
     + intros a Ha. pose proof (P a Ha) as Pa. destruct Ha as (A1&A2&A3&A4). unfold past. split; [exact A1|]. split; [exact Pa|]. split; [exact A3|exact A4].
-    + unfold past. split; [left; unfold pos_lt; lia|].
-      split; [intros _; apply vq_refl|]. split; [intros [X _]; exfalso; lia|intros [X _]; exfalso; lia].
+    + split; [unfold past; split; [left; unfold pos_lt; lia|];
+      split; [intros _; apply vq_refl|]; split; [intros [X _]; exfalso; lia|intros [X _]; exfalso; lia]|].
+      intros a (A1&A2&A3&A4) Hs. apply A2; unfold samepos in *; split; lia.
   - destruct Hp as [Hp1 Hp2].
     split; [unfold kinv; repeat split; lia|].
     split; [intros a vid'; unfold get3; destruct (vid' =? ViewIDVoting); [auto|]; destruct (vid' =? ViewIDCommitting); [auto|];
@@ -420,8 +427,9 @@ Proof.
     split; [|split; [intros a Ha; eapply vle_trans; [exact Ha|exact L]|split; [exact P|split; [apply vle_refl|]]]].
     + intros a Ha. pose proof (P a Ha) as Pa. destruct Ha as (A1&A2&A3&A4). unfold past.
       split; [unfold pos_lt, samepos in *; lia|]. split; [exact A2|]. split; [exact A3|exact Pa].
-    + unfold past. split; [right; split; reflexivity|].
-      split; [intros [X _]; exfalso; lia|]. split; [intros [_ X]; exfalso; lia|intros _; apply vq_refl].
+    + split; [unfold past; split; [right; split; reflexivity|];
+      split; [intros [X _]; exfalso; lia|]; split; [intros [_ X]; exfalso; lia|intros _; apply vq_refl]|].
+      intros a (A1&A2&A3&A4) Hs. apply A4; unfold samepos in *; split; lia.
 Qed.
 
 (** same version, no event (replayed header; commit-proof backfill that added nothing) *)
@@ -449,9 +457,10 @@ Proof.
   assert (Hw : v_ver w < two32) by (rewrite Hv; apply wrap32_lt).
   assert (Hv' : v_ver w = v_ver (get3 t vid) + 1) by (rewrite Hv; apply wrap32_succ; [exact Hold|rewrite <- Hv; exact Hv0]).
   assert (Q : vq (get3 t vid) w) by (split; [lia|exact Hl]).
-  destruct (upd_facts t vid w Hk Hp Q Hw) as (F1&F2&F3&F4&F5&F6&F7).
+  destruct (upd_facts t vid w Hk Hp Q Hw) as (F1&F2&F3&F4&F5&F6&F7&F8).
   split; [exact F1|]. split; [exact F2|]. split; [exact F3|].
-  split; [constructor; [split; assumption|constructor]|].
+  split; [constructor; [split; [exact F4|]|constructor]|].
+  { intros a Ha Hs. eapply vq_vqs_trans; [apply F8; assumption|]. split; [lia|exact Hl]. }
   split; [constructor; [split; assumption|constructor]|].
   split; [constructor|exact I].
 Qed.
@@ -463,7 +472,7 @@ Proof.
   destruct Hk as (K1&K2&K3&K4&K5&K6&K7&K8).
   split; [constructor; [|constructor]; intros a (A1&A2&A3&A4) Hs; apply A3; exact Hs|].
   split; [|split; [constructor|exact I]].
-  constructor; [|constructor]. unfold ev_N, past.
+  constructor; [|constructor]. unfold ev_N, past. split; [|lia].
   split; [left; unfold pos_lt; lia|]. split; [intros [X _]; exfalso; lia|]. split; [intros _; apply vq_refl|intros [_ X]; exfalso; lia].
 Qed.
 
@@ -488,13 +497,14 @@ Proof.
   assert (Kn : kinv (c, v', n')) by (unfold kinv; repeat split; try lia; rewrite Hv; apply wrap32_lt).
   assert (Lv : vle v v') by (left; unfold pos_lt; lia).
   assert (Ln : vle n n') by (left; unfold pos_lt; lia).
-  assert (P : forall a, past a (c, v, n) -> samepos a v' -> vq a v').
-  { intros a (A1&A2&A3&A4) Hs. eapply vq_trans; [apply A4; unfold samepos in *; split; lia|exact Q]. }
-  assert (Pn : forall a, past a (c, v, n) -> samepos a n' -> vq a n').
+  assert (P : forall a, past a (c, v, n) -> samepos a v' -> vqs a v').
+  { intros a (A1&A2&A3&A4) Hs. eapply vq_vqs_trans; [apply A4; unfold samepos in *; split; lia|split; [lia|exact Hl]]. }
+  assert (Pn : forall a, past a (c, v, n) -> samepos a n' -> vqs a n').
   { intros a (A1&A2&A3&A4) Hs. exfalso. unfold pos_lt, samepos in *. lia. }
   assert (Pa : forall a, past a (c, v, n) -> past a (c, v', n')).
   { intros a Ha. pose proof (P a Ha) as P1. pose proof (Pn a Ha) as P2. destruct Ha as (A1&A2&A3&A4). unfold past.
-    split; [left; unfold pos_lt, samepos in *; lia|]. split; [exact A2|]. split; [exact P1|exact P2]. }
+    split; [left; unfold pos_lt, samepos in *; lia|]. split; [exact A2|].
+    split; [intros Hs; apply vqs_vq, P1, Hs|intros Hs; apply vqs_vq, P2, Hs]. }
   split; [exact Kn|].
   split; [intros a vid; unfold get3; destruct (vid =? ViewIDVoting); [intros Ha; eapply vle_trans; [exact Ha|exact Lv]|];
           destruct (vid =? ViewIDCommitting); [auto|intros Ha; eapply vle_trans; [exact Ha|exact Ln]]|].
@@ -529,16 +539,17 @@ Proof.
   assert (Lc : vle c c') by (left; unfold pos_lt; lia).
   assert (Lv : vle v v') by (left; unfold pos_lt; lia).
   assert (Ln : vle n n') by (left; unfold pos_lt; lia).
-  assert (P : forall a, past a (c, v, n) -> samepos a c' -> vq a c').
-  { intros a (A1&A2&A3&A4) Hs. eapply vq_trans; [apply A3; unfold samepos in *; split; lia|exact Q]. }
-  assert (Pv : forall a, past a (c, v, n) -> samepos a v' -> vq a v').
+  assert (P : forall a, past a (c, v, n) -> samepos a c' -> vqs a c').
+  { intros a (A1&A2&A3&A4) Hs. eapply vq_vqs_trans; [apply A3; unfold samepos in *; split; lia|split; [lia|exact Hl]]. }
+  assert (Pv : forall a, past a (c, v, n) -> samepos a v' -> vqs a v').
   { intros a (A1&A2&A3&A4) Hs. exfalso. unfold pos_lt, samepos in *. lia. }
-  assert (Pn : forall a, past a (c, v, n) -> samepos a n' -> vq a n').
+  assert (Pn : forall a, past a (c, v, n) -> samepos a n' -> vqs a n').
   { intros a (A1&A2&A3&A4) Hs. exfalso. unfold pos_lt, samepos in *. lia. }
   assert (Pa : forall a, past a (c, v, n) -> past a (c', v', n')).
   { intros a Ha. pose proof (P a Ha) as P1. pose proof (Pv a Ha) as P2. pose proof (Pn a Ha) as P3.
     destruct Ha as (A1&A2&A3&A4). unfold past.
-    split; [left; unfold pos_lt, samepos in *; lia|]. split; [exact P1|]. split; [exact P2|exact P3]. }
+    split; [left; unfold pos_lt, samepos in *; lia|].
+    split; [intros Hs; apply vqs_vq, P1, Hs|]. split; [intros Hs; apply vqs_vq, P2, Hs|intros Hs; apply vqs_vq, P3, Hs]. }
   split; [exact Kn|].
   split; [intros a vid; unfold get3; destruct (vid =? ViewIDVoting); [intros Ha; eapply vle_trans; [exact Ha|exact Lv]|];
           destruct (vid =? ViewIDCommitting); intros Ha; eapply vle_trans; try exact Ha; assumption|].
